@@ -53,6 +53,15 @@ func c12Decls() []c12Decl {
 		{ID: "var-rel", Var: "OUT_A", VarRHS: `"o3"`, Rel: "o3"},
 		{ID: "var-rel-nested", Var: "OUT_B", VarRHS: `"sub/o4"`, Rel: "sub/o4"},
 		{ID: "var-join", Var: "OUT_C", VarRHS: `join("sub", "o5")`, Rel: "sub/o5"},
+		{ID: "var-abs-file", Var: "OUT_H", VarRHS: `"@PROJ@//sub/./o4"`, Rel: "sub/o4"}, // an absolute, non-canonical spelling
+		{ID: "var-dollar", Var: "OUT_I", VarRHS: `"out/$arch"`, Rel: "out/$arch"},       // '$' is an ordinary character (arch=arm is in the environment)
+		{ID: "lit-dollar-brace", IsLit: true, Lit: "out/${arch}.o", Rel: "out/${arch}.o"},
+		{ID: "lit-tilde", IsLit: true, Lit: "~", Rel: "~"}, // a file literally named ~ (HOME is above the project)
+		{ID: "var-abs-projdir-slash", Var: "OUT_J", VarRHS: `"@PROJ@/"`, Protected: true},
+		{ID: "var-abs-projdir-slashes", Var: "OUT_K", VarRHS: `"@PROJ@//"`, Protected: true},
+		{ID: "var-abs-projdir-dotdot", Var: "OUT_L", VarRHS: `"@PROJ@/sub/.."`, Protected: true},
+		{ID: "var-abs-parent-dot", Var: "OUT_M", VarRHS: `"@PROJ@/../."`, Protected: true},
+		{ID: "var-rel-back-into-proj", Var: "OUT_N", VarRHS: `"sub/../"`, Protected: true},
 		{ID: "lit-empty", IsLit: true, Lit: "", Protected: true},
 		{ID: "lit-dot", IsLit: true, Lit: ".", Protected: true},
 		{ID: "lit-dotdot", IsLit: true, Lit: "..", Protected: true},
@@ -66,7 +75,7 @@ func c12Decls() []c12Decl {
 }
 
 // the designatable paths of the project tree (bit i of the tree mask = present)
-var c12Paths = []string{"o1", "dir/o2", "a.gen", "b.gen", "gen/x.o", "o3", "sub/o4", "sub/o5", "o1.log", "dir2.tar", ".cache/y.o", "cache/y.o", "o[1].txt", "o1.txt", "ready?.md", "readyX.md", "@lnk", "@dlnk"}
+var c12Paths = []string{"o1", "dir/o2", "a.gen", "b.gen", "gen/x.o", "o3", "sub/o4", "sub/o5", "o1.log", "dir2.tar", ".cache/y.o", "cache/y.o", "o[1].txt", "o1.txt", "ready?.md", "readyX.md", "@lnk", "@dlnk", "out/$arch", "out/arm", "out/${arch}.o", "out/arm.o", "out/.o", "~"}
 
 // c12Relevant: indexes into c12Paths of the paths a declaration designates or could be confused with
 func c12Relevant(id string) []int {
@@ -102,6 +111,12 @@ func c12Relevant(id string) []int {
 		return pi("ready?.md", "readyX.md")
 	case "lit-link-dangling":
 		return pi("@dlnk")
+	case "var-abs-file":
+		return pi("sub/o4", "sub/o5")
+	case "var-dollar", "lit-dollar-brace":
+		return pi("out/$arch", "out/arm", "out/${arch}.o", "out/arm.o", "out/.o")
+	case "lit-tilde":
+		return pi("~")
 	}
 	return nil // dangerous declarations: the whole tree is at stake, the full tree is the interesting one
 }
@@ -254,17 +269,18 @@ func c12Run(root string, c c12Case) (obs []c12Obs, outcome string) {
 	t.File("home/other.txt", "other\n")
 	t.File("home/w/sibling.txt", "sibling\n")
 	if c.SpokLink {
-		t.File("home/shared/spokfile", c.text())
+		t.File("home/shared/spokfile", strings.ReplaceAll(c.text(), "@PROJ@", proj))
 		os.Symlink(filepath.Join(root, "home/shared/spokfile"), filepath.Join(proj, "spokfile"))
 		os.Lchown(filepath.Join(proj, "spokfile"), 65534, 65534)
 	} else {
-		t.File(projRel+"/spokfile", c.text())
+		t.File(projRel+"/spokfile", strings.ReplaceAll(c.text(), "@PROJ@", proj))
 	}
 	t.File(projRel+"/src.txt", "src\n")
 	t.File(projRel+"/keep.txt", "keep\n")
 	t.File(projRel+"/gen/keep.txt", "keep\n")
 	t.File(projRel+"/dir/keep", "keep\n")
 	t.File(projRel+"/sub/keep", "keep\n")
+	t.File(projRel+"/out/keep", "keep\n")
 	t.File(projRel+"/.spok/cache.json", `{"build":""}`)
 	t.File(projRel+"/.spok/.gitignore", "*\n")
 	for i, p := range c12Paths {
@@ -290,7 +306,7 @@ func c12Run(root string, c c12Case) (obs []c12Obs, outcome string) {
 		t.File(projRel+"/keepdir/inner/a.gen", "same name as a glob match, elsewhere\n")
 	}
 	before = bin.Snap(root)
-	o := bin.Run(cwd, home, []string{"VLOG=" + vlog, "VCTL=" + ctl}, "--clean")
+	o := bin.Run(cwd, home, []string{"VLOG=" + vlog, "VCTL=" + ctl, "arch=arm"}, "--clean")
 	after := bin.Snap(root)
 	outcome = fmt.Sprintf("exit%d", o.Exit)
 	if o.Died() {
